@@ -34,6 +34,12 @@ func init() {
 			}
 			p.Scenario = g.Scenario(ScenOpts{MinTx: 2, MaxTx: maxTx, MaxOps: 4, PoisonPct: 25, DelPct: 30, RollbackPct: 10, BadRollbackPct: 20,
 				AsyncPct: 40, MultiPct: 40, PipelinePct: 70}, p.Knobs.Targets)
+			if g.chance(1, 6) {
+				// histories piled onto one sub-tree: the candidate has to be built from tombstones and live values the way the
+				// commit merges them
+				p.Profile = "validated-document+ladder"
+				p.Scenario = g.LadderScenario(p.Knobs.Targets[0], maxTx+5)
+			}
 			if g.chance(1, 8) {
 				// documents below, at and above the 100 000 byte chunk size: a few large string leaves
 				p.Profile = "validated-document+large"
